@@ -81,8 +81,9 @@ SelRes(nodes, rn, lo, hi) == {n \in 1..Len(nodes) : nodes[n].rn = rn /\ lo <= no
 MolLine(c, i) == MaxOf({j \in 1..(i - 1) : c.bld[j].k = "mol"})       \* the block a line belongs to
 LinesOf(c, K) == {i \in 1..Len(c.bld) : c.bld[i].k \in K}
 BlockSel(c, i) == LET b == c.bld[MolLine(c, i)] IN SelMols(c, b.name, b.lo, b.hi)
-PTags(c, K, m, n) == { c.bld[i].tag : i \in {j \in LinesOf(c, K) : m \in BlockSel(c, j)
-                                                  /\ n \in SelRes(PNodes(c, m), c.bld[j].name, c.bld[j].lo, c.bld[j].hi)} }
+PN(c) == [i \in 1..NM(c) |-> PNodes(c, i - 1)]         \* pn = PN(c) is handed down so that it is evaluated once
+PTags(c, pn, K, m, n) == { c.bld[i].tag : i \in {j \in LinesOf(c, K) : m \in BlockSel(c, j)
+                                                  /\ n \in SelRes(pn[m + 1], c.bld[j].name, c.bld[j].lo, c.bld[j].hi)} }
 PMolTags(c, m) == { c.bld[i].tag : i \in {j \in LinesOf(c, {"dist", "pers"}) : m \in BlockSel(c, j)} }
 
 (* residue specifications <mol_name>#<mol_idx>-<resname>#<resid>: written fields must match *)
@@ -90,11 +91,14 @@ SpecMols(c, s) == {m \in MIdx(c) : (s.hasMol => NameOf(c, m) = s.mol) /\ (s.hasI
 SpecRes(nodes, s) == {n \in 1..Len(nodes) : (s.hasRn => nodes[n].rn = s.rn) /\ (s.hasId => nodes[n].id = s.id)}
 Contradictory(c, s) == s.hasMol /\ s.hasIdx /\ SpecMols(c, s) = {}
 \* residues a molecule may be started from ({} = the option says nothing about m)
-PStart(c, m) == UNION { SpecRes(PNodes(c, m), c.start[i]) : i \in {j \in 1..Len(c.start) : m \in SpecMols(c, c.start[j])} }
-StartOK(c, startOf) == \A m \in MIdx(c) : IF PStart(c, m) = {} THEN startOf[m + 1] = 0 ELSE startOf[m + 1] \in PStart(c, m)
+PStart(c, pn, m) == UNION { SpecRes(pn[m + 1], c.start[i]) : i \in {j \in 1..Len(c.start) : m \in SpecMols(c, c.start[j])} }
+StartOK(c, startOf) == LET pn == PN(c) IN
+                       /\ Len(startOf) = NM(c)
+                       /\ \A m \in MIdx(c) : IF PStart(c, pn, m) = {} THEN startOf[m + 1] = 0 ELSE startOf[m + 1] \in PStart(c, pn, m)
 
 (* -lig host:ligand *)
-PHosts(c, i) == UNION { {<<m, n>> : n \in SpecRes(PNodes(c, m), c.lig[i].h)} : m \in SpecMols(c, c.lig[i].h) }
+PHostsN(c, pn, i) == UNION { {<<m, n>> : n \in SpecRes(pn[m + 1], c.lig[i].h)} : m \in SpecMols(c, c.lig[i].h) }
+PHosts(c, i) == PHostsN(c, PN(c), i)
 PLigM(c, i) == IF c.lig[i].l.hasMol \/ c.lig[i].l.hasIdx THEN SpecMols(c, c.lig[i].l) ELSE {}
 \* a -lig option that cannot be honoured (more host residues than ligand molecules) has to be rejected
 LigInfeasible(c) == \E i \in 1..Len(c.lig) : Cardinality(PHosts(c, i)) > Cardinality(PLigM(c, i))
@@ -102,17 +106,19 @@ LigInfeasible(c) == \E i \in 1..Len(c.lig) : Cardinality(PHosts(c, i)) > Cardina
 RECURSIVE TotLen(_, _)
 TotLen(ss, k) == IF k = 0 THEN 0 ELSE Len(ss[k]) + TotLen(ss, k - 1)
 LigValid(c, added) ==
-  LET X == UNION { {[m |-> m, x |-> added[m + 1][j]] : j \in 1..Len(added[m + 1])} : m \in MIdx(c) }
+  LET pn == PN(c)
+      X == UNION { {[m |-> m, x |-> added[m + 1][j]] : j \in 1..Len(added[m + 1])} : m \in MIdx(c) }
       at(m, n, lm) == {e \in X : e.m = m /\ e.x.host = n /\ e.x.lm = lm}
-  IN /\ \A e \in X : \E i \in 1..Len(c.lig) : /\ <<e.m, e.x.host>> \in PHosts(c, i)
+  IN /\ Len(added) = NM(c)
+     /\ \A e \in X : \E i \in 1..Len(c.lig) : /\ <<e.m, e.x.host>> \in PHostsN(c, pn, i)
                                               /\ e.x.lm \in PLigM(c, i)
-                                              /\ e.x.ln \in SpecRes(PNodes(c, e.x.lm), c.lig[i].l)
-                                              /\ e.x.rn = PNodes(c, e.x.lm)[e.x.ln].rn
+                                              /\ e.x.ln \in SpecRes(pn[e.x.lm + 1], c.lig[i].l)
+                                              /\ e.x.rn = pn[e.x.lm + 1][e.x.ln].rn
      \* every host residue of a specification gets exactly one of its ligand molecules, completely, once
-     /\ \A i \in 1..Len(c.lig) : \A h \in PHosts(c, i) :
+     /\ \A i \in 1..Len(c.lig) : \A h \in PHostsN(c, pn, i) :
           LET ls == {e.x.lm : e \in {f \in X : f.m = h[1] /\ f.x.host = h[2] /\ f.x.lm \in PLigM(c, i)}} IN
             /\ Cardinality(ls) = 1
-            /\ \A lm \in ls : LET want == SpecRes(PNodes(c, lm), c.lig[i].l) IN
+            /\ \A lm \in ls : LET want == SpecRes(pn[lm + 1], c.lig[i].l) IN
                  /\ {e.x.ln : e \in at(h[1], h[2], lm)} = want
                  /\ Cardinality(at(h[1], h[2], lm)) = Cardinality(want)
      \* no ligand molecule is shared between two host residues
@@ -122,6 +128,44 @@ LigValid(c, added) ==
 \* the ligated node carries what the build needs: a position can be generated for it
 Buildable(c, x) == x.tmpl \/ x.rn \in ToSet(c.vols)
 
+(* ---- domain of the property (DESIGN 4.18 "Domain"; notes/design_updates/C18.md): inputs outside are not judged ---- *)
+Distinct(sq) == Len(sq) = Cardinality(ToSet(sq))
+SplitInDomain(c) ==
+  /\ Distinct([i \in 1..Len(c.split) |-> c.split[i].rn])                        \* one split string per residue name
+  /\ \A i \in 1..Len(c.split) : /\ Distinct([p \in 1..Len(c.split[i].parts) |-> c.split[i].parts[p].nn])   \* distinct new names
+                                /\ Distinct(FlattenSeq([p \in 1..Len(c.split[i].parts) |-> c.split[i].parts[p].atoms]))
+                                /\ \A p \in 1..Len(c.split[i].parts) : c.split[i].parts[p].atoms # <<>>
+BldInDomain(c) ==
+  LET pn == PN(c) IN
+  /\ \A i \in 1..Len(c.bld) : c.bld[i].k # "mol" => \E j \in 1..(i - 1) : c.bld[j].k = "mol"
+  \* at most one random-walk restriction per residue (the walk can honour only one)
+  /\ \A m \in MIdx(c) : \A n \in 1..Len(pn[m + 1]) : Cardinality(PTags(c, pn, {"rw"}, m, n)) <= 1
+  /\ \A i \in LinesOf(c, {"geom", "rw"}) : \A j \in LinesOf(c, {"geom", "rw"}) : (i # j /\ c.bld[i].k = c.bld[j].k) => c.bld[i].tag # c.bld[j].tag
+  \* node keys of molecule-level restraints exist in every molecule (node-level validity belongs to C07)
+  /\ \A i \in LinesOf(c, {"dist", "pers"}) : /\ c.bld[i].lo # c.bld[i].hi
+                                             /\ \A m \in MIdx(c) : c.bld[i].lo < Len(pn[m + 1]) /\ c.bld[i].hi < Len(pn[m + 1])
+  /\ Distinct([q \in 1..Cardinality(LinesOf(c, {"dist", "pers"})) |-> c.bld[Asc(LinesOf(c, {"dist", "pers"}))[q]].tag])
+  \* at most one distance restraint per node pair of a molecule (two would contradict each other)
+  /\ \A i, j \in LinesOf(c, {"dist"}) : (i # j /\ c.bld[i].lo = c.bld[j].lo /\ c.bld[i].hi = c.bld[j].hi) => BlockSel(c, i) \cap BlockSel(c, j) = {}
+StartSpecsInDomain(c) ==
+  LET pn == PN(c) IN
+  /\ \A i \in 1..Len(c.start) : /\ (c.start[i].hasIdx => c.start[i].idx < NM(c))
+                                /\ \A m \in SpecMols(c, c.start[i]) : SpecRes(pn[m + 1], c.start[i]) # {}
+                                \* a contradictory name#index: the code looks at the indexed molecule; keep it able to answer
+                                /\ (Contradictory(c, c.start[i]) => SpecRes(pn[c.start[i].idx + 1], c.start[i]) # {})
+  /\ \A i, j \in 1..Len(c.start) : i # j => SpecMols(c, c.start[i]) \cap SpecMols(c, c.start[j]) = {}
+LigSpecsInDomain(c) ==
+  LET pn == PN(c)
+      ligm(i) == IF c.lig[i].l.hasIdx THEN {c.lig[i].l.idx} ELSE PLigM(c, i)      \* also the molecule a contradictory name#index points at
+      hostm(i) == {h[1] : h \in PHostsN(c, pn, i)}
+  IN /\ \A i \in 1..Len(c.lig) : /\ (c.lig[i].h.hasIdx => c.lig[i].h.idx < NM(c))
+                                 /\ (c.lig[i].l.hasIdx => c.lig[i].l.idx < NM(c))
+                                 /\ \A m \in ligm(i) : SpecRes(pn[m + 1], c.lig[i].l) # {}
+     \* no molecule is host and ligand in one run; ligand molecules of different options are different
+     /\ \A i, j \in 1..Len(c.lig) : hostm(i) \cap ligm(j) = {}
+     /\ \A i, j \in 1..Len(c.lig) : i # j => ligm(i) \cap ligm(j) = {}
+InDomain(c) == SplitInDomain(c) /\ BldInDomain(c) /\ StartSpecsInDomain(c) /\ LigSpecsInDomain(c)
+
 (* projections of an I-layer state to what the P-layer talks about *)
 ProjNodes(nodes) == [k \in 1..Len(nodes) |-> [rn |-> nodes[k].rn, id |-> nodes[k].id, atoms |-> ToSet(nodes[k].atoms)]]
 NodesOK(c, s) == /\ Len(s.nodes) = NM(c)
@@ -129,11 +173,12 @@ NodesOK(c, s) == /\ Len(s.nodes) = NM(c)
                                        /\ NoLossNoDup(c, m, ProjNodes(s.nodes[m + 1]))
                                        /\ \A k \in 1..Len(s.nodes[m + 1]) : /\ s.nodes[m + 1][k].build
                                                                             /\ Len(s.nodes[m + 1][k].atoms) = Cardinality(ToSet(s.nodes[m + 1][k].atoms))
-TagsOK(c, K, tg) == /\ Len(tg) = NM(c)
-                    /\ \A m \in MIdx(c) : /\ Len(tg[m + 1]) = Len(PNodes(c, m))
-                                          /\ \A n \in 1..Len(PNodes(c, m)) :
-                                                /\ ToSet(tg[m + 1][n]) = PTags(c, K, m, n)
-                                                /\ Len(tg[m + 1][n]) = Cardinality(PTags(c, K, m, n))
+TagsOK(c, K, tg) == LET pn == PN(c) IN
+                    /\ Len(tg) = NM(c)
+                    /\ \A m \in MIdx(c) : /\ Len(tg[m + 1]) = Len(pn[m + 1])
+                                          /\ \A n \in 1..Len(pn[m + 1]) :
+                                                /\ ToSet(tg[m + 1][n]) = PTags(c, pn, K, m, n)
+                                                /\ Len(tg[m + 1][n]) = Cardinality(PTags(c, pn, K, m, n))
 MolTagsOK(c, dt) == /\ Len(dt) = NM(c)
                     /\ \A m \in MIdx(c) : ToSet(dt[m + 1]) = PMolTags(c, m) /\ Len(dt[m + 1]) = Cardinality(PMolTags(c, m))
 \* what split_ligands must deliver: exactly one hand-over per ligated node, to the ligand's own molecule and residue
@@ -219,8 +264,10 @@ ParseLine(s, c, i) ==
   IN CASE L.k = "mol"  -> [s EXCEPT !.curName = L.name, !.curIdxs = IF Has("closedMol") THEN L.lo..L.hi ELSE L.lo..(L.hi - 1)]
        [] L.k = "geom" -> [s EXCEPT !.bopts = AppendAt(s.bopts, keys, i)]
        [] L.k = "rw"   -> [s EXCEPT !.rwo = IF Has("rwLastWins") THEN PutAt(s.rwo, keys, i) ELSE AppendAt(s.rwo, keys, i)]
+       \* topology.distance_restraints[(name, idx)][(a, b)] = ... : a later line on the same node pair replaces the earlier one
        [] L.k = "dist" -> IF \E x \in midx : x >= NM(c) THEN [s EXCEPT !.err = "bld:OSError"]
-                          ELSE [s EXCEPT !.distR = s.distR \o [j \in 1..Cardinality(midx) |-> [idx |-> Asc(midx)[j], tag |-> L.tag]]]
+                          ELSE [s EXCEPT !.distR = SelectSeq(s.distR, LAMBDA e : ~(e.idx \in midx /\ e.name = s.curName /\ e.a = L.lo /\ e.b = L.hi))
+                                                   \o [j \in 1..Cardinality(midx) |-> [name |-> s.curName, idx |-> Asc(midx)[j], a |-> L.lo, b |-> L.hi, tag |-> L.tag]]]
        [] L.k = "pers" -> [s EXCEPT !.pers = Append(s.pers, [tag |-> L.tag, idxs |-> midx])]
 
 (* ---- BuildDirector.finalize: tag the nodes of every molecule mentioned by name and index ---- *)
@@ -336,6 +383,7 @@ Finished == pc > Len(steps)
 MustReject(c) == LigInfeasible(c)
 MayReject(c) == \E i \in 1..Len(c.lig) : \/ Contradictory(c, c.lig[i].h) \/ Contradictory(c, c.lig[i].l)
                                         \/ ~(c.lig[i].l.hasMol \/ c.lig[i].l.hasIdx)
+FamilyInDomain == (pc = 1) => InDomain(case)        \* the instance families stay inside the domain
 ErrOK == Done => IF MustReject(case) THEN st.err # ""
                  ELSE IF MayReject(case) THEN TRUE ELSE st.err = ""
 
